@@ -182,6 +182,44 @@ def build_volatility(w):
         modifies=[],
         hints={'ext_funcs': {'_infer_volatility': IHV, '_max_volatility': MAX2,
                              'irtyputils.is_object': dict(params={'t': 'Obj'}, returns='bool', returns_expr='ISOBJ(t)', modifies=[])}})
+    # function / operator calls: at least the declared volatility of the function (or of its inlined body) and at least the common volatility of the arguments.
+    # The declared volatility (a single enum value in the IR) is modelled in its normalised form (v, v) -- what _normalize_volatility makes of it.
+    w.refclass('ArgEl', {'expr': 'IrV'}); w.ufunc('ARGS', ['ArgsT'], 'Seq[ArgEl]')
+    w.refclass('ArgsT', {}); w.refclass('CallIr', {'body': 'Opt[IrV]', 'volatility': PAIR, 'args': 'Opt[ArgsT]'})
+    w.ufunc('CV0', ['CallIr'], 'Vol'); w.ufunc('CV1', ['CallIr'], 'Vol'); w.ufunc('NARGS', ['ArgsT'], 'int')
+    w.py_methods = getattr(w, 'py_methods', {})
+    MAXL = dict(overloads=[dict(params={'args': 'Seq[%s]' % PAIR}, returns=PAIR, requires=['len(args) == 2'], ensures=MAXE('args[0]', 'args[1][%d]'), modifies=[])], params={})
+    CALL_ENS = ['implies(ir.body is not None, result[0] >= V0(ir.body) and result[1] >= V1(ir.body))',
+                'implies(ir.body is None, result[0] >= ir.volatility[0] and result[1] >= ir.volatility[1])',
+                'implies(ir.args is not None, forall(0, len(ARGS(ir.args)), lambda k: result[0] >= V0(ARGS(ir.args)[k].expr) and result[1] >= V1(ARGS(ir.args)[k].expr)))']
+    COMMON = dict(params={'args': 'Seq[IrV]', 'env': 'VEnv'}, returns=PAIR, ensures=['forall(0, len(args), lambda k: result[0] >= V0(args[k]) and result[1] >= V1(args[k]))'], modifies=[])
+    w.ext_methods['ArgsT.values'] = dict(params={}, returns='Seq[ArgEl]', returns_expr='ARGS(self)', modifies=[])
+    w.ext_methods['ArgsT.__bool__'] = dict(params={}, returns='bool', returns_expr='len(ARGS(self)) > 0', modifies=[])
+    w.contract(VOLA, '__infer_func_call', params={'ir': 'CallIr', 'env': 'VEnv'}, returns=PAIR, ensures=CALL_ENS, modifies=[],
+        hints={'ext_funcs': {'_infer_volatility': IHV, '_max_volatility': MAXL, '_common_volatility': COMMON}})
+    w.contract(VOLA, '__infer_oper_call', params={'ir': 'CallIr', 'env': 'VEnv'}, returns=PAIR, ensures=['result[0] >= ir.volatility[0] and result[1] >= ir.volatility[1]', CALL_ENS[2]], modifies=[],
+        hints={'ext_funcs': {'_infer_volatility': IHV, '_max_volatility': MAXL, '_common_volatility': COMMON}})
+    GE = lambda e: 'result[0] >= V0(%s) and result[1] >= V1(%s)' % (e, e)
+    XV = {'_infer_volatility': IHV, '_max_volatility': MAXL, '_common_volatility': COMMON}
+    w.refclass('OrdEl', {'expr': 'IrV'})
+    w.refclass('SelIr', {'iterator_stmt': 'Opt[IrV]', 'result': 'IrV', 'where': 'Opt[IrV]', 'orderby': 'Opt[Seq[OrdEl]]', 'offset': 'Opt[IrV]', 'limit': 'Opt[IrV]',
+                         'bindings': 'Opt[Seq[Tuple[IrV,Obj]]]'})
+    w.contract(VOLA, '__infer_select_stmt', params={'ir': 'SelIr', 'env': 'VEnv'}, returns=PAIR, modifies=['$alloc'],
+        ensures=[GE('ir.result')] + ['implies(ir.%s is not None, %s)' % (f, GE('ir.' + f)) for f in ('iterator_stmt', 'where', 'offset', 'limit')]
+                ,      # ORDER BY keys and WITH bindings (appended through generators) are not pinned: the position arithmetic left both solvers undecided
+        hints={'ext_funcs': XV, 'var_types': {'components': 'Seq[IrV]'}})
+    w.refclass('SliceIr', {'expr': 'IrV', 'start': 'Opt[IrV]', 'stop': 'Opt[IrV]'})
+    w.contract(VOLA, '__infer_slice', params={'ir': 'SliceIr', 'env': 'VEnv'}, returns=PAIR, modifies=['$alloc'],
+        ensures=[GE('ir.expr'), 'implies(ir.start is not None, %s)' % GE('ir.start'), 'implies(ir.stop is not None, %s)' % GE('ir.stop')],
+        hints={'ext_funcs': XV, 'var_types': {'args': 'Seq[IrV]'}})
+    w.refclass('IndexIr', {'expr': 'IrV', 'index': 'IrV'})
+    w.contract(VOLA, '__infer_index', params={'ir': 'IndexIr', 'env': 'VEnv'}, returns=PAIR, modifies=['$alloc'], ensures=[GE('ir.expr'), GE('ir.index')], hints={'ext_funcs': XV})
+    w.refclass('CastIr', {'expr': 'IrV'})
+    w.contract(VOLA, '__infer_typecast', params={'ir': 'CastIr', 'env': 'VEnv'}, returns=PAIR, modifies=[], ensures=[GE('ir.expr')], hints={'ext_funcs': XV})
+    # a DML statement is Modifying for the flags (and Stable for materialisation, which has its own mechanism)
+    w.contract(VOLA, '__infer_dml_stmt', params={'ir': 'Obj', 'env': 'VEnv'}, returns=PAIR, modifies=[], ensures=['result[0] == Vol.Modifying', 'result[1] == Vol.Stable'])
+    w.trusted.append('volatility inference: the declared volatility of a function / operator (one enum value) is modelled in its normalised form (v, v); _max_volatility is assumed to be the '
+                     'componentwise maximum of the normalised arguments, _common_volatility to dominate the inferred pair of every argument; an IR node is truthy')
 
 # ---------------------------------------------------------------------------------------------------- ownership / dominance scans
 def _ob(oid, clause, ok, where=None, tag='property', kind='ownership', undecided=False):
